@@ -1,15 +1,30 @@
 #!/bin/bash
-# seeded changes against their own check and the neighbouring checks (3 at a time);
-# result in /tmp/mx/matrix.txt; summarised into seeded/RESULTS.md by tools/matrix_report.py
+# every seeded change against the check of its own property (+ the checks of neighbouring properties where
+# the change contradicts those as directly); 4 at a time; result in /tmp/mx/matrix.txt, summarised into
+# seeded/RESULTS.md by tools/matrix_report.py
 cd /verif
-CORE="C01 C02 C03 C04 C05 C06 C07 C08 C19 C15"
 run() {
   s=$1; own=${s%-*}
-  case " $CORE " in
-    *" $own "*) tools/matrix.sh $s $CORE ;;
-    *) tools/matrix.sh $s $own C09 C18 ;;
+  extra=""
+  case $s in
+    C01-m4) extra="C04" ;;
+    C04-m3|C19-m4) extra="C20 C19" ;;
+    C14-m4|C19-m3|C06-m1) extra="C06 C19 C14" ;;
+    C18-m4|C09-m3) extra="C09 C18 C16" ;;
+    C18-m3) extra="C13" ;;
+    C09-m4) extra="C03" ;;
+    C06-m4|C15-m1) extra="C15 C06" ;;
+    C13-m3|C05-m1) extra="C05 C13" ;;
+    C13-m4|C09-m2) extra="C09 C13" ;;
+    C12-m4) extra="C18" ;;
+    C04-m4|C16-m4) extra="C16 C04" ;;
+    C02-m4|C07-m3) extra="C02 C07" ;;
+    C02-m3|C07-m4) extra="C02 C07 C08" ;;
+    C10-m2) extra="C09" ;;
   esac
+  tools/matrix.sh $s $(echo $own $extra | tr ' ' '\n' | awk '!seen[$0]++' | tr '\n' ' ')
 }
 export -f run
-ls seeded | grep -E '^C[0-9]+-m[0-9]+$' | xargs -P 3 -I{} bash -c 'run {}' > /tmp/mx/matrix.txt 2>&1
+rm -f /tmp/mx/matrix*.txt
+ls seeded | grep -E '^C[0-9]+-m[0-9]+$' | xargs -P 4 -I{} bash -c 'run {}' > /tmp/mx/matrix.txt 2>&1
 echo done >> /tmp/mx/matrix.txt
